@@ -554,7 +554,17 @@ func (e *specEnv) withState(cur *State, f func() Val) Val {
 	savedVars := e.vars
 	e.cur = cur
 	if e.oldVars != nil {
-		e.vars = e.oldVars
+		nv := map[string]Val{}
+		for k, v := range e.oldVars {
+			nv[k] = v
+		}
+		// quantifier-bound variables stay visible inside old(...)
+		for k, v := range e.vars {
+			if len(v.C) == 1 && strings.Contains(v.C[0], "!q") {
+				nv[k] = v
+			}
+		}
+		e.vars = nv
 	}
 	defer func() { e.cur = saved; e.vars = savedVars }()
 	return f()
@@ -820,6 +830,35 @@ func (e *specEnv) call(n *ast.CallExpr) Val {
 				old := e.t.heapGet(e.old, hn, arr2Sort(c.Sort))
 				e.t.nfr++
 				bv := q(fmt.Sprintf("pa!q%d", e.t.nfr))
+				fs = append(fs, fmt.Sprintf("(forall ((%s Int)) (! %s :pattern ((select %s %s))))", bv,
+					imp(le(bv, e.t.top(e.old)), eq(sel(cur, bv), sel(old, bv))), cur, bv))
+			}
+			return Val{tBool, []string{and(fs...)}}
+		case "preservedmaps":
+			// preservedmaps(m): every map (of m's type) that existed in the pre-state is unchanged
+			mv := e.eval(n.Args[0])
+			mt, ok := under(mv.T).(*types.Map)
+			if !ok {
+				e.errorf("preservedmaps: not a map")
+				return Val{tBool, []string{"true"}}
+			}
+			var fs []string
+			names := []string{}
+			sorts := []string{}
+			dn, ds := mapDomHeap(mt)
+			names = append(names, dn)
+			sorts = append(sorts, ds)
+			for _, c := range flatten(mt.Elem()) {
+				vn, vs := mapValHeap(mt, c.Suffix, c.Sort)
+				names = append(names, vn)
+				sorts = append(sorts, vs)
+			}
+			for i, hn := range names {
+				e.t.eng.heapSort[hn] = sorts[i]
+				cur := e.t.heapGet(e.cur, hn, sorts[i])
+				old := e.t.heapGet(e.old, hn, sorts[i])
+				e.t.nfr++
+				bv := q(fmt.Sprintf("pm!q%d", e.t.nfr))
 				fs = append(fs, fmt.Sprintf("(forall ((%s Int)) (! %s :pattern ((select %s %s))))", bv,
 					imp(le(bv, e.t.top(e.old)), eq(sel(cur, bv), sel(old, bv))), cur, bv))
 			}
